@@ -240,22 +240,33 @@ func (tr *trans) unop(x *ssa.UnOp, st State) {
 	case token.SUB:
 		tr.setVal(x, "(- "+tr.val(x.X)+")")
 	case token.ARROW:
-		tr.warnf("channel receive at %s modelled as arbitrary value", tr.srcText(x.Pos()))
+		// channel receive: arbitrary value / ok, recorded in a ghost history of the channel variable
+		tr.note("channel receives yield arbitrary values (no model of the sender); a ghost history records what was received")
+		cn := "recv." + x.X.Name()
+		et := x.X.Type().Underlying().(*types.Chan).Elem()
+		tr.stateSort[cn+".n"] = "Int"
+		tr.stateSort[cn+".at"] = "(Array Int " + tr.vc.sortOf(et) + ")"
+		vn := q(x.Name() + ".v")
+		okn := q(x.Name() + ".ok")
+		tr.vc.declConst(vn, tr.vc.sortOf(et))
+		tr.vc.declConst(okn, "Bool")
+		if inv := tr.typeInv(vn, et, st, 0); inv != "true" {
+			tr.vc.assume(inv)
+		}
+		if !x.CommaOk {
+			// a plain receive from a closed channel yields the zero value; we do not distinguish
+			tr.vc.assume(okn)
+		}
+		n := tr.getState(st, cn+".n")
+		at := tr.getState(st, cn+".at")
+		tr.setState(st, cn+".at", ite(okn, store(at, n, vn), at))
+		tr.setState(st, cn+".n", ite(okn, app("+", n, "1"), n))
 		if x.CommaOk {
-			tup := x.Type().(*types.Tuple)
-			var ts []Term
-			for i := 0; i < tup.Len(); i++ {
-				n := q(fmt.Sprintf("%s.%d", x.Name(), i))
-				tr.vc.declConst(n, tr.vc.sortOf(tup.At(i).Type()))
-				if inv := tr.typeInv(n, tup.At(i).Type(), st, 0); inv != "true" {
-					tr.vc.assume(inv)
-				}
-				ts = append(ts, n)
-			}
-			tr.tuples[x] = ts
+			tr.tuples[x] = []Term{vn, okn}
 			return
 		}
-		tr.freshVal(x, st)
+		tr.vals[x] = vn
+		tr.recordTerm(vn, x)
 	case token.XOR:
 		tr.freshVal(x, st)
 	default:
@@ -730,7 +741,7 @@ func (tr *trans) frameObligations(st State, k int, pos token.Pos) {
 	fp := tr.footprint(env, tr.fc.Modifies)
 	next0 := tr.getState(tr.entry, "$next")
 	for _, name := range sortedKeys(tr.known) {
-		if name == "$next" || strings.HasPrefix(name, "call.") || strings.HasPrefix(name, "iter.") || strings.HasPrefix(name, "lock.") || strings.HasPrefix(name, "L.") || strings.HasPrefix(name, "defer.") {
+		if name == "$next" || strings.HasPrefix(name, "call.") || strings.HasPrefix(name, "iter.") || strings.HasPrefix(name, "lock.") || strings.HasPrefix(name, "recv.") || strings.HasPrefix(name, "L.") || strings.HasPrefix(name, "defer.") {
 			continue
 		}
 		if _, ok := tr.stateSort[name]; !ok {
